@@ -194,6 +194,9 @@ where
                 });
 
                 tokio::select! {
+                    // A result that is already there wins over a deadline that has also passed
+                    // (as with `tokio::time::timeout`): the caller may simply have polled late
+                    biased;
                     result = rx => {
                         // Task completed - unwrap the channel result
                         result.ok()
